@@ -678,8 +678,8 @@ func (f *frame) invariants(st *State, li *loopInfo, ls *LoopSpec) (labels []stri
 		if idx, ln, ok := f.rangeInfo(st, li); ok {
 			iv := st.cells[idx].(VInt).T
 			labels = append(labels, "range")
-			terms = append(terms, tAnd(tLe(num(-1), iv), tLt(iv, tIte(tLt(ln, "1"), "1", tAdd(ln, "0")))))
-			// -1 <= idx < max(len,1): idx == -1 is allowed for an empty collection
+			terms = append(terms, tAnd(tLe(num(-1), iv), tLt(iv, ln)))
+			// -1 <= idx < len: idx == -1 before the first element (and always for an empty collection)
 			variant = []T{tSub(ln, iv)}
 		}
 	}
